@@ -1,13 +1,38 @@
 //! C14 — A sips: target is never sent in clear; target and transport selection are sound
 //!
-//! Two sub-checks share one scenario executor and one oracle walk:
+//! Four sub-checks share one scenario executor and one oracle walk:
 //!
-//! * `config` — the finite configuration space, enumerated exhaustively (one request per configuration);
+//! * `config` — the finite configuration space, enumerated exhaustively (one request per configuration,
+//!   target URI built through the `SipUri` builder API);
+//! * `uri-text` — the target URI is TEXT that goes through one of ezk's URI readers before it becomes the
+//!   request target (`SipUri::from_str`, `Endpoint::parse_uri`, the request line / the Contact header
+//!   (name-addr and bare addr-spec form) of a received message); enumerated: scheme spelling (lower, UPPER,
+//!   Capitalised, mIxed — RFC 3261 19.1.1 / RFC 3986 3.1: the scheme is case-insensitive) x sip/sips x user
+//!   part (none, user, user:password) x host (IPv4, IPv6 lower/upper case hex) x port x uri/header
+//!   parameters that say nothing about the transport x 8 endpoint configurations. The reference never sees
+//!   the text: the text is rendered from the generated (sips, ip, port) triple;
+//! * `followup` — what the transaction emits AFTER the first transmission: the request is an INVITE or an
+//!   OPTIONS that is driven (`receive()` polled); virtual time passes (retransmissions over datagram
+//!   transports) and scripted responses (180, 486) are delivered to the endpoint over a chosen transport: the
+//!   carrying one, any configured datagram transport, a transport outside the configuration, a pre-existing
+//!   connection, from the request's destination or (datagram) from the port next to it. Transaction matching
+//!   does not look at the transport or source a response arrived with, so the ACK for
+//!   the non-2xx final (a request to the same URI, the only request that bypasses `Transports::select`) and
+//!   its copy for a retransmitted final have a "choice"; enumerated over configurations x scripts;
 //! * `sequence` — random sequences of 2..6 requests against ONE endpoint, so that the connections opened by
-//!   earlier requests (held, released, expired) are the pre-existing ones for the later requests.
+//!   earlier requests (held, released, expired) are the pre-existing ones for the later requests; every step
+//!   draws URI form, method and follow-up script as above.
 //!
-//! The executor only drives ezk and records what the mocks saw; the verdict is computed afterwards by
-//! `refmodel::ref_select` (decision table written from the statement, no ezk code).
+//! The executor only drives ezk and records what the mocks saw; every transmission is attributed to its
+//! request by Call-ID with the independent wire reader. The verdict is computed afterwards by
+//! `refmodel::ref_select` (decision table written from the statement, no ezk code): `judge` for the first
+//! transmission (selection), `judge_later` for retransmissions and ACKs.
+//!
+//! Not asserted: that retransmissions / the ACK use the transport of the first transmission when nothing was
+//! pinned by the caller (RFC 3261 17.1.1.3 says so, the C14 statement does not; only never-in-clear,
+//! destination, datagram family and pin reuse are checked per transmission); timing of retransmissions (C05);
+//! content of the ACK (C07); `transport=` / `maddr=` URI parameters (never generated); whether a valid URI
+//! text is accepted is C01's subject (a rejected text is reported as `c14.uri/valid-text-rejected`).
 
 use crate::engine::*;
 use crate::refmodel::ref_select::{self as rs, Carrier, Life};
@@ -18,7 +43,9 @@ use proptest::prelude::*;
 use serde::{Deserialize, Serialize};
 use sip_core::transport::streaming::{StreamingFactory, StreamingListener, StreamingListenerBuilder};
 use sip_core::transport::{Direction, Factory, TargetTransportInfo, TpHandle};
+use sip_core::transaction::{ClientInvTsx, ClientTsx};
 use sip_core::{Endpoint, IncomingRequest, Layer, MayTake, Request};
+use sip_types::header::typed::Contact;
 use sip_types::host::{Host, HostPort};
 use sip_types::uri::sip::SipUri;
 use sip_types::uri::{Uri, UriInfo};
@@ -88,6 +115,113 @@ struct Step {
     pin: StepPin,
     /// keep the returned transaction and target info (slot = step index)
     hold: bool,
+    /// how the URI object of the request is obtained
+    uri: UriForm,
+    /// INVITE (ClientInvTsx) instead of OPTIONS (ClientTsx)
+    invite: bool,
+    /// what happens to the transaction after the first transmission; non-empty = the transaction is driven
+    follow: Vec<Follow>,
+}
+
+// ------------------------------------------------------------------------------------------
+// URI forms
+
+/// Which reader of ezk turns the URI text into the request target
+#[derive(Serialize, Deserialize, Clone, Copy, Debug, Hash, PartialEq, Eq, Default)]
+pub enum UriVia {
+    /// no text: `SipUri::new(..).sips(..)`
+    #[default]
+    Built,
+    /// `str::parse::<SipUri>()`
+    FromStr,
+    /// `Endpoint::parse_uri`
+    EndpointParse,
+    /// Request-URI of a request the endpoint received
+    RequestLine,
+    /// `Contact: "x" <uri>` of a request the endpoint received
+    ContactAngle,
+    /// `Contact: uri` (addr-spec form, the URI cannot carry parameters) of a request the endpoint received
+    ContactBare,
+}
+
+#[derive(Serialize, Deserialize, Clone, Copy, Debug, Hash, PartialEq, Eq, Default)]
+pub struct UriForm {
+    pub via: UriVia,
+    /// spelling of the scheme: 0 lower, 1 UPPER, 2 Capitalised, 3 mIxed
+    pub scheme: u8,
+    /// 0 no user part, 1 `bob@`, 2 `bob:secret@`
+    pub user: u8,
+    /// IPv6 literal written with upper case hex digits
+    pub upper_hex: bool,
+    /// index into URI_PARAMS (0 = none)
+    pub params: u8,
+}
+
+/// uri-parameters / headers that say nothing about transport or destination (no transport=, no maddr=)
+const URI_PARAMS: [&str; 5] = ["", ";lr", ";user=phone;ttl=5", ";method=OPTIONS", "?subject=hi"];
+const SCHEMES: [[&str; 4]; 2] = [["sip", "SIP", "Sip", "sIp"], ["sips", "SIPS", "Sips", "sIPs"]];
+
+/// number of URI_PARAMS entries (from the front) the reader accepts: a Request-URI carries no headers,
+/// a bare addr-spec in Contact no parameters at all
+fn params_allowed(via: UriVia) -> usize {
+    match via {
+        UriVia::Built => 1,
+        UriVia::RequestLine => 4,
+        UriVia::ContactBare => 1,
+        _ => URI_PARAMS.len(),
+    }
+}
+
+/// The text of the target URI, rendered from the generated triple (the reference only knows the triple).
+fn uri_text(t: &rs::Target, f: &UriForm) -> String {
+    let scheme = SCHEMES[t.sips as usize][(f.scheme & 3) as usize];
+    let user = match f.user % 3 {
+        0 => "",
+        1 => "bob@",
+        _ => "bob:secret@",
+    };
+    let host = match t.ip {
+        IpAddr::V4(a) => a.to_string(),
+        IpAddr::V6(a) => {
+            let h = a.to_string();
+            format!("[{}]", if f.upper_hex { h.to_ascii_uppercase() } else { h })
+        }
+    };
+    let port = t.port.map(|p| format!(":{p}")).unwrap_or_default();
+    let params = URI_PARAMS[(f.params as usize).min(params_allowed(f.via) - 1)];
+    format!("{scheme}:{user}{host}{port}{params}")
+}
+
+// ------------------------------------------------------------------------------------------
+// follow-up scripts
+
+/// The transport a scripted response is handed to the endpoint on
+#[derive(Serialize, Deserialize, Clone, Copy, Debug, Hash, PartialEq, Eq)]
+pub enum RespVia {
+    /// the transport that carried the request
+    Same,
+    /// configured datagram transport DGRAMS[i] (the carrying one when it is not configured)
+    Dgram(u8),
+    /// datagram transport outside the configuration EXT[i]
+    Ext(u8),
+    /// the first connection opened by an `Op` of the scenario, if still open (else the carrying one)
+    Pre,
+    /// selector over [carrying, configured datagram transports.., EXT.., open connections..]
+    Sel(u16),
+}
+
+#[derive(Serialize, Deserialize, Clone, Copy, Debug, Hash, PartialEq, Eq)]
+pub enum Follow {
+    /// let virtual time pass (ms) while the transaction is polled
+    Wait(u32),
+    /// the peer answers the request with `code`, the response reaches the endpoint over `via`;
+    /// `shift`: a datagram response carries the source port destination + 1 (peer answers from another socket)
+    Respond {
+        code: u16,
+        via: RespVia,
+        #[serde(default)]
+        shift: bool,
+    },
 }
 
 #[derive(Clone, Debug)]
@@ -142,6 +276,57 @@ struct StepObs {
     /// what the transaction reports about the transport it used: (secure(), destination)
     reported: Option<(bool, SocketAddr)>,
     managed: usize,
+    /// the URI text ezk's reader refused (the request was not issued)
+    uri_rejected: Option<String>,
+    /// delivered responses: (code, transport it was handed in on, same as the carrying one)
+    responses: Vec<(u16, CId, bool)>,
+    /// transmissions carrying this request's Call-ID after the first one: (method, carrier, destination)
+    later: Vec<(String, CId, SocketAddr)>,
+    /// index into the wire log where the first-transmission window of this request ended
+    window_end: usize,
+}
+
+/// A transaction the test keeps
+enum HeldTsx {
+    Plain(ClientTsx),
+    Inv(ClientInvTsx),
+    /// moved into a task that polls `receive()`; dropping aborts the task (and with it drops the transaction)
+    Driven(#[allow(dead_code)] DrivenTask),
+}
+
+struct DrivenTask(tokio::task::JoinHandle<()>);
+
+impl Drop for DrivenTask {
+    fn drop(&mut self) {
+        self.0.abort();
+    }
+}
+
+/// Poll the transaction like an application does; keep it alive after it finished (the test "holds" it).
+fn drive(tsx: HeldTsx) -> HeldTsx {
+    match tsx {
+        HeldTsx::Plain(mut t) => HeldTsx::Driven(DrivenTask(tokio::spawn(async move {
+            loop {
+                match t.receive().await {
+                    Ok(r) if r.line.code.into_u16() < 200 => {}
+                    _ => break,
+                }
+            }
+            std::future::pending::<()>().await;
+            drop(t);
+        }))),
+        HeldTsx::Inv(mut t) => HeldTsx::Driven(DrivenTask(tokio::spawn(async move {
+            loop {
+                match t.receive().await {
+                    Ok(Some(_)) => {}
+                    _ => break,
+                }
+            }
+            std::future::pending::<()>().await;
+            drop(t);
+        }))),
+        d => d,
+    }
 }
 
 // ------------------------------------------------------------------------------------------
@@ -216,14 +401,21 @@ fn make_uri(t: &rs::Target) -> SipUri {
     SipUri::new(HostPort { host, port: t.port }).sips(t.sips).user("bob".into())
 }
 
-fn make_request(t: &rs::Target, n: usize) -> Request {
-    let mut request = Request::new(Method::OPTIONS, make_uri(t));
+fn call_id(n: usize) -> String {
+    format!("c14-{n}@example.org")
+}
+
+fn make_request(uri: Box<dyn Uri>, invite: bool, n: usize) -> Request {
+    let method = if invite { Method::INVITE } else { Method::OPTIONS };
+    let mut request = Request::new(method, uri);
     request
         .headers
         .insert(Name::FROM, "\"Alice\" <sip:alice@example.org>;tag=c14");
     request.headers.insert(Name::TO, "<sip:bob@example.net>");
-    request.headers.insert(Name::CALL_ID, format!("c14-{n}@example.org"));
-    request.headers.insert(Name::CSEQ, format!("{} OPTIONS", n + 1));
+    request.headers.insert(Name::CALL_ID, call_id(n));
+    request
+        .headers
+        .insert(Name::CSEQ, format!("{} {}", n + 1, if invite { "INVITE" } else { "OPTIONS" }));
     request.headers.insert(Name::MAX_FORWARDS, "70");
     request
 }
@@ -304,6 +496,7 @@ fn execute(sc: &Scenario, rng: u64) -> Result<Vec<StepObs>, String> {
         b.add_layer(TakeLayer { tx });
 
         let mut ids = Ids { dgram: vec![], ext: vec![] };
+        let mut dgram_tp: Vec<(usize, TpHandle)> = vec![];
         let mut order: Vec<usize> = (0..4).filter(|i| sc.dgrams & (1 << i) != 0).collect();
         if sc.dgrams_rev {
             order.reverse();
@@ -311,6 +504,7 @@ fn execute(sc: &Scenario, rng: u64) -> Result<Vec<StepObs>, String> {
         for i in order {
             let (name, secure, bound) = DGRAMS[i];
             let (tp, id) = mock_datagram(&log, name, secure, false, bound);
+            dgram_tp.push((i, tp.clone()));
             b.add_unmanaged_transport(tp);
             ids.dgram.push((i, id));
         }
@@ -347,9 +541,10 @@ fn execute(sc: &Scenario, rng: u64) -> Result<Vec<StepObs>, String> {
         let mut conns: Vec<ConnRec> = vec![];
         let mut perm_handles: Vec<TpHandle> = vec![];
         let mut perm_requests: Vec<IncomingRequest> = vec![];
-        let mut perm_peers: Vec<PeerConn> = vec![];
-        let mut slots: BTreeMap<usize, (sip_core::transaction::ClientTsx, TargetTransportInfo)> = BTreeMap::new();
-        let mut seen_conns: Vec<usize> = vec![0; probes.len()];
+        // peer ends of every connection (opened by an Op or by a registered factory)
+        let mut peers: Vec<PeerConn> = vec![];
+        let mut first_op_conn: Option<u32> = None;
+        let mut slots: BTreeMap<usize, (HeldTsx, TargetTransportInfo)> = BTreeMap::new();
         let mut seen_connects: Vec<usize> = vec![0; probes.len()];
         let mut helper_n = 0u32;
         let mut inbound_from: BTreeSet<(bool, SocketAddr)> = BTreeSet::new();
@@ -386,10 +581,11 @@ fn execute(sc: &Scenario, rng: u64) -> Result<Vec<StepObs>, String> {
                         };
                         settle().await;
                         let rec = rec_of(&peer, true, None);
+                        first_op_conn.get_or_insert(rec.id);
                         conns.push(rec.clone());
                         obs.opened.push(rec);
                         perm_handles.push(tp);
-                        perm_peers.push(peer);
+                        peers.push(peer);
                     }
                     Op::OpenIn { secure, remote } => {
                         if !inbound_from.insert((*secure, *remote)) {
@@ -429,9 +625,10 @@ fn execute(sc: &Scenario, rng: u64) -> Result<Vec<StepObs>, String> {
                             Err(_) => return Err("inbound request did not reach the layer".to_string()),
                         }
                         let rec = rec_of(&peer, false, None);
+                        first_op_conn.get_or_insert(rec.id);
                         conns.push(rec.clone());
                         obs.opened.push(rec);
-                        perm_peers.push(peer);
+                        peers.push(peer);
                     }
                 }
             }
@@ -459,9 +656,60 @@ fn execute(sc: &Scenario, rng: u64) -> Result<Vec<StepObs>, String> {
                     }
                 }
             }
+            // ---- the URI object: built, or read by ezk from text rendered from the generated triple ----
+            let text = uri_text(&step.target, &step.uri);
+            let uri: Option<Box<dyn Uri>> = match step.uri.via {
+                UriVia::Built => Some(Box::new(make_uri(&step.target))),
+                UriVia::FromStr => text.parse::<SipUri>().ok().map(|u| Box::new(u) as Box<dyn Uri>),
+                UriVia::EndpointParse => endpoint.parse_uri(&text).ok(),
+                UriVia::RequestLine | UriVia::ContactAngle | UriVia::ContactBare => {
+                    let (line_uri, contact) = match step.uri.via {
+                        UriVia::RequestLine => (text.clone(), "<sip:peer@198.51.100.7>".to_string()),
+                        UriVia::ContactAngle => ("sip:ezk@10.0.0.9".to_string(), format!("\"Bob\" <{text}>;expires=60")),
+                        _ => ("sip:ezk@10.0.0.9".to_string(), format!("{text};expires=60")),
+                    };
+                    let msg = request_text(
+                        "OPTIONS",
+                        &line_uri,
+                        &[format!("SIP/2.0/PINI {EXT_DEST};branch=z9hG4bKc14uri{n}")],
+                        &format!("<sip:peer@example.org>;tag=uri{n}"),
+                        "<sip:ezk@10.0.0.9>",
+                        &format!("c14-uri-{n}"),
+                        1,
+                        "OPTIONS",
+                        &[format!("Contact: {contact}")],
+                        b"",
+                    );
+                    inject(&endpoint, &ext_tp[0], EXT_DEST.parse().unwrap(), &msg);
+                    settle().await;
+                    match rx.try_recv() {
+                        Ok(req) => {
+                            if step.uri.via == UriVia::RequestLine {
+                                Some(req.line.uri.clone())
+                            } else {
+                                req.headers.get_named::<Contact>().ok().map(|c| c.uri.uri)
+                            }
+                        }
+                        Err(_) => None,
+                    }
+                }
+            };
+            let Some(uri) = uri else {
+                obs.uri_rejected = Some(text);
+                obs.window_end = log.len();
+                obs.managed = endpoint.verif_counts().1;
+                out.push(obs);
+                continue;
+            };
+
             let wire_before = log.len();
             let written_before: Vec<(u32, usize)> = conns.iter().map(|c| (c.id, c.received.lock().len())).collect();
-            let result = endpoint.send_request(make_request(&step.target, n), &mut target).await;
+            let request = make_request(uri, step.invite, n);
+            let result = if step.invite {
+                endpoint.send_invite(request, &mut target).await.map(HeldTsx::Inv)
+            } else {
+                endpoint.send_request(request, &mut target).await.map(HeldTsx::Plain)
+            };
             settle().await;
 
             for (fi, (_, p)) in probes.iter().enumerate() {
@@ -470,13 +718,13 @@ fn execute(sc: &Scenario, rng: u64) -> Result<Vec<StepObs>, String> {
                     obs.connects.push((fi, *a));
                 }
                 seen_connects[fi] = connects.len();
-                let made = p.conns.lock();
-                for pc in made.iter().skip(seen_conns[fi]) {
-                    let rec = rec_of(pc, true, Some(fi));
+                let made: Vec<PeerConn> = p.conns.lock().drain(..).collect();
+                for pc in made {
+                    let rec = rec_of(&pc, true, Some(fi));
                     conns.push(rec.clone());
                     obs.new_conns.push(rec);
+                    peers.push(pc);
                 }
-                seen_conns[fi] = made.len();
             }
             let wrote: Vec<u32> = conns
                 .iter()
@@ -486,9 +734,21 @@ fn execute(sc: &Scenario, rng: u64) -> Result<Vec<StepObs>, String> {
                 })
                 .map(|c| c.id)
                 .collect();
+            let mut first_request: Option<WireMsg> = None;
             for s in log.snapshot().into_iter().skip(wire_before) {
+                // transmissions of other (driven, still running) transactions belong to their own request
+                let m = WireMsg::parse(&s.bytes);
+                if let Some(other) = m.as_ref().and_then(|m| m.call_id()) {
+                    if other != call_id(n) {
+                        continue;
+                    }
+                }
+                if first_request.is_none() {
+                    first_request = m;
+                }
                 obs.sent.push((cid_of_wire(&ids, s.tp, &conns, &wrote), s.dest));
             }
+            obs.window_end = log.len();
             // a connection that received bytes which never became a framed wire-log entry
             for id in &wrote {
                 if !obs.sent.iter().any(|(c, _)| *c == CId::Conn(*id)) {
@@ -502,8 +762,73 @@ fn execute(sc: &Scenario, rng: u64) -> Result<Vec<StepObs>, String> {
             match result {
                 Ok(tsx) => {
                     obs.ok = true;
-                    let parts = &tsx.request().parts;
+                    let parts = match &tsx {
+                        HeldTsx::Plain(t) => &t.request().parts,
+                        HeldTsx::Inv(t) => &t.request().parts,
+                        HeldTsx::Driven(_) => unreachable!(),
+                    };
                     obs.reported = Some((parts.transport.secure(), parts.destination));
+                    let mut tsx = tsx;
+                    // ---- follow-up: the transaction is polled, time passes, the peer answers ----
+                    if let (false, Some((carrier, peer_addr)), Some(req)) =
+                        (step.follow.is_empty(), obs.sent.first().cloned(), first_request.as_ref())
+                    {
+                        tsx = drive(tsx);
+                        for fo in &step.follow {
+                            match fo {
+                                Follow::Wait(ms) => {
+                                    clock.advance(*ms as u64).await;
+                                    settle().await;
+                                }
+                                Follow::Respond { code, via, shift } => {
+                                    let source = if *shift {
+                                        SocketAddr::new(peer_addr.ip(), peer_addr.port() + 1)
+                                    } else {
+                                        peer_addr
+                                    };
+                                    let open_conn = |id: u32| peers.iter().any(|p| p.id == id && !p.is_eof());
+                                    let wanted: CId = match via {
+                                        RespVia::Same => carrier.clone(),
+                                        RespVia::Dgram(i) => CId::Dgram((*i & 3) as usize),
+                                        RespVia::Ext(i) => CId::Ext((*i & 1) as usize),
+                                        RespVia::Pre => first_op_conn.map(CId::Conn).unwrap_or(carrier.clone()),
+                                        RespVia::Sel(sel) => {
+                                            let mut all = vec![carrier.clone()];
+                                            all.extend(dgram_tp.iter().map(|(i, _)| CId::Dgram(*i)));
+                                            all.extend((0..EXT.len()).map(CId::Ext));
+                                            all.extend(peers.iter().filter(|p| !p.is_eof()).map(|p| CId::Conn(p.id)));
+                                            all[pick_idx(*sel, all.len())].clone()
+                                        }
+                                    };
+                                    let usable = match &wanted {
+                                        CId::Dgram(i) => dgram_tp.iter().any(|(k, _)| k == i),
+                                        CId::Ext(_) => true,
+                                        CId::Conn(id) => open_conn(*id),
+                                        CId::Unknown => false,
+                                    };
+                                    let on = if usable { wanted } else { carrier.clone() };
+                                    let bytes = response_text(req, *code, Some("c14peer"), &[]);
+                                    let delivered = match &on {
+                                        CId::Dgram(i) => {
+                                            let tp = &dgram_tp.iter().find(|(k, _)| k == i).unwrap().1;
+                                            inject(&endpoint, tp, source, &bytes) == Injected::Sip
+                                        }
+                                        CId::Ext(i) => inject(&endpoint, &ext_tp[*i], source, &bytes) == Injected::Sip,
+                                        CId::Conn(id) => match peers.iter_mut().find(|p| p.id == *id) {
+                                            Some(p) => p.write(&bytes).await,
+                                            None => false,
+                                        },
+                                        CId::Unknown => false,
+                                    };
+                                    settle().await;
+                                    if delivered {
+                                        let same = on == carrier;
+                                        obs.responses.push((*code, on, same));
+                                    }
+                                }
+                            }
+                        }
+                    }
                     if step.hold {
                         slots.insert(n, (tsx, target));
                     } else {
@@ -520,10 +845,27 @@ fn execute(sc: &Scenario, rng: u64) -> Result<Vec<StepObs>, String> {
             obs.managed = endpoint.verif_counts().1;
             out.push(obs);
         }
+        // ---- everything that left after the first-transmission window, attributed by Call-ID ----
+        let all: Vec<(Sent, Option<WireMsg>)> = log.parsed();
+        for (n, o) in out.iter_mut().enumerate() {
+            let mine = call_id(n);
+            for (s, m) in all.iter().skip(o.window_end) {
+                let Some(m) = m else { continue };
+                if m.call_id() != Some(mine.as_str()) || !m.is_request() {
+                    continue;
+                }
+                let cid = if conns.iter().any(|c| c.id == s.tp) {
+                    CId::Conn(s.tp)
+                } else {
+                    cid_of_wire(&ids, s.tp, &[], &[])
+                };
+                o.later.push((m.method().unwrap_or("").to_string(), cid, s.dest));
+            }
+        }
         drop(slots);
         drop(perm_handles);
         drop(perm_requests);
-        drop(perm_peers);
+        drop(peers);
         Ok(out)
     })
 }
@@ -562,8 +904,38 @@ fn evaluate(sc: &Scenario, obs: &[StepObs], out: &mut CaseOut) -> Summary {
         })
         .collect();
     let mut notes = vec![];
+    // per request: what the caller pinned (for the verdict on later transmissions)
+    let mut pins: Vec<Option<rs::Pin>> = vec![];
 
     for (n, (step, o)) in sc.steps.iter().zip(obs.iter()).enumerate() {
+        out.class(match step.uri.via {
+            UriVia::Built => "uri-source:built",
+            UriVia::FromStr => "uri-source:text/SipUri::from_str",
+            UriVia::EndpointParse => "uri-source:text/Endpoint::parse_uri",
+            UriVia::RequestLine => "uri-source:text/received-request-line",
+            UriVia::ContactAngle => "uri-source:text/received-contact-name-addr",
+            UriVia::ContactBare => "uri-source:text/received-contact-addr-spec",
+        });
+        if step.uri.via != UriVia::Built {
+            out.class(match step.uri.scheme & 3 {
+                0 => "uri-text:scheme-lower-case",
+                1 => "uri-text:scheme-upper-case",
+                _ => "uri-text:scheme-mixed-case",
+            });
+            if step.target.sips && step.uri.scheme & 3 != 0 {
+                out.class("uri-text:sips-scheme-not-lower-case");
+            }
+            if step.target.ip.is_ipv6() && step.uri.upper_hex {
+                out.class("uri-text:ipv6-upper-case-hex");
+            }
+            if step.uri.user % 3 == 2 {
+                out.class("uri-text:user-with-password");
+            }
+            if step.uri.params != 0 && params_allowed(step.uri.via) > step.uri.params as usize {
+                out.class("uri-text:with-uri-or-header-parameters");
+            }
+        }
+        out.class(if step.invite { "method:INVITE" } else { "method:OPTIONS" });
         // ---- state changes before the request ----
         if let Some(k) = o.released {
             slots.remove(&k);
@@ -659,6 +1031,16 @@ fn evaluate(sc: &Scenario, obs: &[StepObs], out: &mut CaseOut) -> Summary {
                 },
             },
         };
+        pins.push(pin.clone());
+        if let Some(text) = &o.uri_rejected {
+            // (C01's subject, but the request could not be issued: say so instead of skipping silently)
+            out.fail(
+                "c14.uri/valid-text-rejected",
+                format!("request {n}: ezk's reader ({:?}) refused the URI text {text:?}", step.uri.via),
+            );
+            notes.push(format!("#{n} uri text {text:?} rejected"));
+            continue;
+        }
         let observation = rs::Observation {
             success: o.ok,
             sent: o
@@ -792,6 +1174,94 @@ fn evaluate(sc: &Scenario, obs: &[StepObs], out: &mut CaseOut) -> Summary {
                 );
             }
         }
+    }
+    // ---- second pass: what each transaction emitted after its first transmission ----
+    // (the connection list is complete now; its indices are stable, so a pinned `Carrier::Conn(k)` compares)
+    for (n, (step, o)) in sc.steps.iter().zip(obs.iter()).enumerate() {
+        if !step.follow.is_empty() && o.ok {
+            out.class("followup:transaction-driven");
+        }
+        for (code, on, same) in &o.responses {
+            out.class(match (*code >= 300, *same) {
+                (true, true) => "followup:non-2xx-final-on-carrying-transport",
+                (true, false) => "followup:non-2xx-final-on-OTHER-transport",
+                (false, true) => "followup:1xx/2xx-on-carrying-transport",
+                (false, false) => "followup:1xx/2xx-on-OTHER-transport",
+            });
+            let on_secure = match on {
+                CId::Dgram(i) => DGRAMS[*i].1,
+                CId::Ext(i) => EXT[*i].1,
+                CId::Conn(id) => conns.iter().any(|c| c.rec.id == *id && c.rec.secure),
+                CId::Unknown => false,
+            };
+            if step.target.sips && !on_secure && step.invite && *code >= 300 {
+                out.class("followup:sips-INVITE-answered-non-2xx-over-insecure-transport");
+            }
+        }
+        if o.later.is_empty() {
+            continue;
+        }
+        let method = if step.invite { "INVITE" } else { "OPTIONS" };
+        let later: Vec<rs::Later> = o
+            .later
+            .iter()
+            .map(|(m, cid, dest)| {
+                let kind = if m == method {
+                    rs::LaterKind::Retransmission
+                } else if m == "ACK" {
+                    rs::LaterKind::Ack
+                } else {
+                    rs::LaterKind::OtherRequest
+                };
+                let (carrier, secure, bound_v6) = match cid {
+                    CId::Dgram(i) => (Carrier::Dgram(*i), DGRAMS[*i].1, Some(DGRAMS[*i].2.starts_with('['))),
+                    CId::Ext(i) => (Carrier::External(*i), EXT[*i].1, Some(EXT[*i].2.starts_with('['))),
+                    CId::Conn(id) => match conns.iter().position(|c| c.rec.id == *id) {
+                        Some(k) => (Carrier::Conn(k), conns[k].rec.secure, None),
+                        None => (Carrier::Unknown, false, None),
+                    },
+                    CId::Unknown => (Carrier::Unknown, false, None),
+                };
+                rs::Later {
+                    kind,
+                    carrier,
+                    secure,
+                    bound_v6,
+                    dest: *dest,
+                }
+            })
+            .collect();
+        let pin = pins.get(n).cloned().flatten();
+        for finding in rs::judge_later(&step.target, pin.as_ref(), &later) {
+            out.fail(finding.sig, format!("request {n} ({:?}): {}", step.target, finding.msg));
+        }
+        let acks = later.iter().filter(|l| l.kind == rs::LaterKind::Ack).count();
+        if later.iter().any(|l| l.kind == rs::LaterKind::Retransmission) {
+            out.class("followup:retransmission-observed");
+        }
+        if acks >= 1 {
+            out.class("followup:ack-observed");
+        }
+        if acks >= 2 {
+            out.class("followup:ack-sent-again-for-retransmitted-final");
+        }
+        if pin.is_some() {
+            out.class("followup:later-transmission-of-pinned-request");
+        }
+        // non-trivial: a later transmission had a choice the statement constrains
+        let had_choice = o.responses.iter().any(|(code, _, same)| *code >= 300 && !*same) && acks >= 1;
+        if had_choice || (step.target.sips && pin.is_none()) || pin.is_some() {
+            out.class("nontrivial:later-transmission-constrained (sips, pinned, or final on another transport)");
+            sum.nontrivial = true;
+        }
+        notes.push(format!(
+            "#{n} later: {:?} responses: {:?}",
+            later
+                .iter()
+                .map(|l| format!("{:?}:{}->{}", l.kind, rs_path(&l.carrier), l.dest))
+                .collect::<Vec<_>>(),
+            o.responses
+        ));
     }
     out.note = Some(notes.join(" ; "));
     sum
@@ -970,6 +1440,9 @@ fn lower_config(c: &Case) -> Scenario {
                 PinSel::Secure => StepPin::External(1),
             },
             hold: false,
+            uri: UriForm::default(),
+            invite: false,
+            follow: vec![],
         }],
     }
 }
@@ -1025,6 +1498,15 @@ pub struct SeqStep {
     pub advance: bool,
     /// before the request: an inbound connection (secure?) from this request's destination
     pub inbound: Option<bool>,
+    /// how the URI object is obtained (default: builder API)
+    #[serde(default)]
+    pub uri: UriForm,
+    /// INVITE instead of OPTIONS
+    #[serde(default)]
+    pub invite: bool,
+    /// follow-up script (empty: the transaction is kept un-polled, as an application that never calls receive())
+    #[serde(default)]
+    pub follow: Vec<Follow>,
 }
 
 #[derive(Serialize, Deserialize, Clone, Debug, Hash)]
@@ -1034,6 +1516,57 @@ pub struct SeqCase {
     pub facs: FacOrder,
     pub steps: Vec<SeqStep>,
     pub rng: u8,
+}
+
+fn uri_form() -> impl Strategy<Value = UriForm> {
+    prop_oneof![
+        2 => Just(UriForm::default()),
+        3 => (
+            prop_oneof![
+                Just(UriVia::FromStr),
+                Just(UriVia::EndpointParse),
+                Just(UriVia::RequestLine),
+                Just(UriVia::ContactAngle),
+                Just(UriVia::ContactBare)
+            ],
+            0u8..4,
+            0u8..3,
+            any::<bool>(),
+            0u8..(URI_PARAMS.len() as u8),
+        )
+            .prop_map(|(via, scheme, user, upper_hex, params)| UriForm {
+                via,
+                scheme,
+                user,
+                upper_hex,
+                // keep the case canonical: a reader that takes fewer parameter shapes gets "none"
+                params: if (params as usize) < params_allowed(via) { params } else { 0 },
+            }),
+    ]
+}
+
+fn resp_via() -> impl Strategy<Value = RespVia> {
+    prop_oneof![
+        2 => Just(RespVia::Same),
+        3 => any::<u16>().prop_map(RespVia::Sel),
+        1 => (0u8..4).prop_map(RespVia::Dgram),
+        1 => (0u8..2).prop_map(RespVia::Ext),
+    ]
+}
+
+fn follow_script() -> impl Strategy<Value = Vec<Follow>> {
+    let event = prop_oneof![
+        // around the retransmission instants T1, 3*T1 (never on them)
+        2 => prop_oneof![Just(300u32), Just(600), Just(1100), Just(2100)].prop_map(Follow::Wait),
+        1 => (resp_via(), any::<bool>()).prop_map(|(via, shift)| Follow::Respond { code: 180, via, shift }),
+        4 => (prop_oneof![Just(486u16), Just(404), Just(302), Just(603)], resp_via(), any::<bool>())
+            .prop_map(|(code, via, shift)| Follow::Respond { code, via, shift }),
+        1 => (resp_via(), any::<bool>()).prop_map(|(via, shift)| Follow::Respond { code: 200, via, shift }),
+    ];
+    prop_oneof![
+        3 => Just(vec![]),
+        1 => prop::collection::vec(event, 1..=3),
+    ]
 }
 
 fn seq_step() -> impl Strategy<Value = SeqStep> {
@@ -1058,9 +1591,10 @@ fn seq_step() -> impl Strategy<Value = SeqStep> {
         prop_oneof![3 => Just(None), 1 => any::<u16>().prop_map(Some)],
         prop_oneof![6 => Just(false), 1 => Just(true)],
         prop_oneof![8 => Just(None), 1 => any::<bool>().prop_map(Some)],
+        (uri_form(), prop_oneof![3 => Just(false), 2 => Just(true)], follow_script()),
     )
         .prop_map(
-            |((sips, v6, host, port), (tcp_ok, tls_ok), pin, hold, release, advance, inbound)| SeqStep {
+            |((sips, v6, host, port), (tcp_ok, tls_ok), pin, hold, release, advance, inbound, (uri, invite, follow))| SeqStep {
                 sips,
                 v6,
                 host,
@@ -1072,6 +1606,9 @@ fn seq_step() -> impl Strategy<Value = SeqStep> {
                 release,
                 advance,
                 inbound,
+                uri,
+                invite,
+                follow,
             },
         )
 }
@@ -1102,13 +1639,7 @@ pub fn seq_strategy() -> BoxedStrategy<SeqCase> {
 }
 
 fn lower_seq(c: &SeqCase) -> Scenario {
-    let facs = match c.facs {
-        FacOrder::None => vec![],
-        FacOrder::Tcp => vec![false],
-        FacOrder::Tls => vec![true],
-        FacOrder::TcpTls => vec![false, true],
-        FacOrder::TlsTcp => vec![true, false],
-    };
+    let facs = fac_list(c.facs);
     let steps = c
         .steps
         .iter()
@@ -1145,6 +1676,9 @@ fn lower_seq(c: &SeqCase) -> Scenario {
                     None => StepPin::None,
                 },
                 hold: s.hold,
+                uri: s.uri,
+                invite: s.invite,
+                follow: s.follow.clone(),
             }
         })
         .collect();
@@ -1161,21 +1695,295 @@ pub fn check_seq(case: &SeqCase, out: &mut CaseOut) {
     run_and_judge(&sc, case.rng, case, out);
 }
 
+// ------------------------------------------------------------------------------------------
+// sub-check 3: the target URI is text read by ezk (exhaustive over spellings x 8 configurations)
+
+#[derive(Serialize, Deserialize, Clone, Debug, Hash)]
+pub struct TextCase {
+    pub dgrams: u8,
+    pub facs: FacOrder,
+    pub sips: bool,
+    /// 0 IPv4 literal, 1 IPv6 literal (lower case hex), 2 IPv6 literal (upper case hex), 3 IPv4-mapped IPv6 literal
+    pub host: u8,
+    /// explicit port 5099
+    pub port: bool,
+    pub uri: UriForm,
+    pub rng: u8,
+}
+
+const TEXT_VIAS: [UriVia; 5] = [
+    UriVia::FromStr,
+    UriVia::EndpointParse,
+    UriVia::RequestLine,
+    UriVia::ContactAngle,
+    UriVia::ContactBare,
+];
+
+pub fn text_cases(tier: Tier) -> Vec<TextCase> {
+    // datagram sets: insecure only / all four / none / secure only; with and without both factories
+    let configs: Vec<(u8, FacOrder)> = match tier {
+        Tier::Quick => [0b0011u8, 0b1111, 0b0000, 0b1100]
+            .into_iter()
+            .flat_map(|d| [FacOrder::TcpTls, FacOrder::None].into_iter().map(move |f| (d, f)))
+            .collect(),
+        Tier::Thorough => [0b0011u8, 0b1111, 0b0000, 0b1100, 0b0001, 0b0110]
+            .into_iter()
+            .flat_map(|d| {
+                [FacOrder::TcpTls, FacOrder::TlsTcp, FacOrder::Tcp, FacOrder::Tls, FacOrder::None]
+                    .into_iter()
+                    .map(move |f| (d, f))
+            })
+            .collect(),
+    };
+    let mut v = vec![];
+    for (dgrams, facs) in configs {
+        for via in TEXT_VIAS {
+            for scheme in 0u8..4 {
+                for sips in [false, true] {
+                    for user in 0u8..3 {
+                        for host in 0u8..tier.pick(3, 4) {
+                            for port in [false, true] {
+                                for params in 0..params_allowed(via) as u8 {
+                                    let rng = (v.len() % 5) as u8;
+                                    v.push(TextCase {
+                                        dgrams,
+                                        facs,
+                                        sips,
+                                        host,
+                                        port,
+                                        uri: UriForm {
+                                            via,
+                                            scheme,
+                                            user,
+                                            upper_hex: host == 2,
+                                            params,
+                                        },
+                                        rng,
+                                    });
+                                }
+                            }
+                        }
+                    }
+                }
+            }
+        }
+    }
+    v
+}
+
+fn fac_list(f: FacOrder) -> Vec<bool> {
+    match f {
+        FacOrder::None => vec![],
+        FacOrder::Tcp => vec![false],
+        FacOrder::Tls => vec![true],
+        FacOrder::TcpTls => vec![false, true],
+        FacOrder::TlsTcp => vec![true, false],
+    }
+}
+
+pub fn check_text(case: &TextCase, out: &mut CaseOut) {
+    let sc = Scenario {
+        dgrams: case.dgrams & 0xf,
+        dgrams_rev: false,
+        facs: fac_list(case.facs),
+        steps: vec![Step {
+            ops: vec![],
+            fac_ok: [true, true],
+            target: rs::Target {
+                sips: case.sips,
+                ip: host_ip(case.host != 0, (case.host == 3) as u8),
+                port: if case.port { Some(5099) } else { None },
+            },
+            pin: StepPin::None,
+            hold: false,
+            uri: case.uri,
+            invite: false,
+            follow: vec![],
+        }],
+    };
+    run_and_judge(&sc, case.rng, case, out);
+}
+
+// ------------------------------------------------------------------------------------------
+// sub-check 4: retransmissions and the ACK for a non-2xx final (exhaustive over configurations x scripts)
+
+#[derive(Serialize, Deserialize, Clone, Copy, Debug, Hash, PartialEq, Eq)]
+pub enum FuPre {
+    None,
+    /// insecure outbound connection to the destination, held
+    OutInsecure,
+    /// secure outbound connection to the destination, held
+    OutSecure,
+    /// insecure inbound connection from the destination
+    InInsecure,
+}
+
+#[derive(Serialize, Deserialize, Clone, Copy, Debug, Hash, PartialEq, Eq)]
+pub enum Script {
+    /// OPTIONS, polled for 1.6 s (two retransmissions over a datagram transport)
+    OptionsRetransmit,
+    /// INVITE, polled for 1.6 s
+    InviteRetransmit,
+    /// INVITE, 486 delivered over the given transport
+    Final(RespVia),
+    /// INVITE, 180 on the carrying transport, then 404 over the given transport (from source port + 1)
+    ProvisionalThenFinal(RespVia),
+    /// INVITE, 486 on the carrying transport; 700 ms later the peer sends the 486 again over the given transport
+    /// (from source port + 1)
+    FinalAgain(RespVia),
+}
+
+#[derive(Serialize, Deserialize, Clone, Debug, Hash)]
+pub struct FollowCase {
+    pub dgrams: u8,
+    pub facs: FacOrder,
+    pub pre: FuPre,
+    pub sips: bool,
+    pub v6: bool,
+    pub pin: PinSel,
+    pub script: Script,
+    pub rng: u8,
+}
+
+pub fn follow_cases(tier: Tier) -> Vec<FollowCase> {
+    let fac_sets: &[FacOrder] = match tier {
+        Tier::Quick => &[FacOrder::None, FacOrder::TcpTls],
+        Tier::Thorough => &[FacOrder::None, FacOrder::TcpTls, FacOrder::Tls, FacOrder::Tcp],
+    };
+    let mut v = vec![];
+    for dgrams in 0u8..16 {
+        for &facs in fac_sets {
+            for pre in [FuPre::None, FuPre::OutInsecure, FuPre::OutSecure, FuPre::InInsecure] {
+                for sips in [false, true] {
+                    for v6 in [false, true] {
+                        for pin in PINS {
+                            let mut vias = vec![RespVia::Same, RespVia::Ext(0), RespVia::Ext(1)];
+                            for i in 0..4u8 {
+                                if dgrams & (1 << i) != 0 {
+                                    vias.push(RespVia::Dgram(i));
+                                }
+                            }
+                            if pre != FuPre::None {
+                                vias.push(RespVia::Pre);
+                            }
+                            let mut scripts = vec![Script::OptionsRetransmit, Script::InviteRetransmit];
+                            for via in vias {
+                                scripts.push(Script::Final(via));
+                                scripts.push(Script::FinalAgain(via));
+                                if tier == Tier::Thorough {
+                                    scripts.push(Script::ProvisionalThenFinal(via));
+                                }
+                            }
+                            for script in scripts {
+                                let rng = (v.len() % 5) as u8;
+                                v.push(FollowCase {
+                                    dgrams,
+                                    facs,
+                                    pre,
+                                    sips,
+                                    v6,
+                                    pin,
+                                    script,
+                                    rng,
+                                });
+                            }
+                        }
+                    }
+                }
+            }
+        }
+    }
+    v
+}
+
+pub fn check_follow(case: &FollowCase, out: &mut CaseOut) {
+    let target = rs::Target {
+        sips: case.sips,
+        ip: host_ip(case.v6, 0),
+        port: None,
+    };
+    let dest = rs::destination(&target);
+    let ops = match case.pre {
+        FuPre::None => vec![],
+        FuPre::OutInsecure => vec![Op::OpenOut { secure: false, remote: dest }],
+        FuPre::OutSecure => vec![Op::OpenOut { secure: true, remote: dest }],
+        FuPre::InInsecure => vec![Op::OpenIn { secure: false, remote: dest }],
+    };
+    let (invite, follow) = match case.script {
+        Script::OptionsRetransmit => (false, vec![Follow::Wait(1600)]),
+        Script::InviteRetransmit => (true, vec![Follow::Wait(1600)]),
+        Script::Final(via) => (
+            true,
+            vec![Follow::Wait(100), Follow::Respond { code: 486, via, shift: false }, Follow::Wait(100)],
+        ),
+        Script::ProvisionalThenFinal(via) => (
+            true,
+            vec![
+                Follow::Respond { code: 180, via: RespVia::Same, shift: false },
+                Follow::Wait(700),
+                Follow::Respond { code: 404, via, shift: true },
+                Follow::Wait(100),
+            ],
+        ),
+        Script::FinalAgain(via) => (
+            true,
+            vec![
+                Follow::Respond { code: 486, via: RespVia::Same, shift: false },
+                Follow::Wait(700),
+                Follow::Respond { code: 486, via, shift: true },
+                Follow::Wait(100),
+            ],
+        ),
+    };
+    let sc = Scenario {
+        dgrams: case.dgrams & 0xf,
+        dgrams_rev: false,
+        facs: fac_list(case.facs),
+        steps: vec![Step {
+            ops,
+            fac_ok: [true, true],
+            target,
+            pin: match case.pin {
+                PinSel::Empty => StepPin::None,
+                PinSel::Insecure => StepPin::External(0),
+                PinSel::Secure => StepPin::External(1),
+            },
+            hold: false,
+            uri: UriForm::default(),
+            invite,
+            follow,
+        }],
+    };
+    out.class(match case.script {
+        Script::OptionsRetransmit => "script:OPTIONS-polled-1.6s",
+        Script::InviteRetransmit => "script:INVITE-polled-1.6s",
+        Script::Final(_) => "script:INVITE-486",
+        Script::ProvisionalThenFinal(_) => "script:INVITE-180-404",
+        Script::FinalAgain(_) => "script:INVITE-486-486again",
+    });
+    run_and_judge(&sc, case.rng, case, out);
+}
+
 pub fn property() -> Property {
     Property {
         fuzz: vec![],
         id: "C14",
-        rule: "config: every combination of {UDP/v4, UDP/v6, secure datagram/v4, secure datagram/v6} subsets x insecure factory {absent, connects, refuses} x secure factory {absent, connects, refuses} (both registration orders when both are present) x pre-existing connection {none, insecure outbound to the destination, secure outbound to the destination, secure outbound to the same host other port, secure outbound to another host, secure inbound from the destination} (all held by a TpHandle) x {sip, sips} x {IPv4, IPv6 literal} x {no port, :5099} x target info {empty, pinned to a secure / an insecure transport outside the configuration with a foreign destination}; one OPTIONS request per configuration, each in its own paused-clock world. sequence: 2..6 requests with varying URIs (2 hosts per family, ports default/5060/5061/5099) against one endpoint; transaction + target info of each request held or dropped at random, held ones released later, 40 s pauses expire unreferenced connections, kept target infos are re-used as pins, factories refuse per step, inbound connections from the destination appear. Observed: which mock's send() carried the request to which destination, which factory was asked to connect. Non-trivial = (sips target and at least one insecure candidate configured) or eligible candidates on at least two of the paths datagram / existing connection / factory; distinct by hash of the case.",
+        rule: "config: every combination of {UDP/v4, UDP/v6, secure datagram/v4, secure datagram/v6} subsets x insecure factory {absent, connects, refuses} x secure factory {absent, connects, refuses} (both registration orders when both are present) x pre-existing connection {none, insecure outbound to the destination, secure outbound to the destination, secure outbound to the same host other port, secure outbound to another host, secure inbound from the destination} (all held by a TpHandle) x {sip, sips} x {IPv4, IPv6 literal} x {no port, :5099} x target info {empty, pinned to a secure / an insecure transport outside the configuration with a foreign destination}; one OPTIONS request per configuration, each in its own paused-clock world. uri-text: the target URI is text read by ezk before it becomes the request target - reader {SipUri::from_str, Endpoint::parse_uri, request line / Contact name-addr / Contact addr-spec of a received request} x scheme spelling {lower, UPPER, Capitalised, mIxed} x {sip, sips} x user part {none, user, user:password} x host {IPv4, IPv6 lower case hex, IPv6 upper case hex (thorough: + IPv4-mapped)} x {no port, :5099} x parameters {none, ;lr, ;user=phone;ttl=5, ;method=OPTIONS, ?subject=hi as far as the reader's grammar allows them} x 8 endpoint configurations (datagram sets {UDP both families, all four, none, secure both families} x factories {both, none}; thorough 30); the reference sees only the generated (sips, ip, port) triple the text was rendered from. followup: one driven request per case - datagram subsets x factories {none, both} x pre-existing connection {none, insecure outbound to the destination, secure outbound to the destination, insecure inbound from the destination} x {sip, sips} x {IPv4, IPv6} x target info {empty, secure pin, insecure pin} x script {OPTIONS polled 1.6 s, INVITE polled 1.6 s, INVITE answered 486 over V, INVITE answered 486 on the carrying transport and again over V 700 ms later from the peer's port + 1 (thorough: + 180, then 404 over V from port + 1)} with V over {the carrying transport, each configured datagram transport, the two transports outside the configuration, the pre-existing connection}; observed: every later request with the transaction's Call-ID (retransmissions, ACK, repeated ACK), its carrier and destination. sequence: 2..6 requests with varying URIs (2 hosts per family, ports default/5060/5061/5099) against one endpoint; transaction + target info of each request held or dropped at random, held ones released later, 40 s pauses expire unreferenced connections, kept target infos are re-used as pins, factories refuse per step, inbound connections from the destination appear. Observed: which mock's send() carried the request to which destination, which factory was asked to connect. Non-trivial = (sips target and at least one insecure candidate configured) or eligible candidates on at least two of the paths datagram / existing connection / factory; each step also draws the URI form (40 % built, 60 % one of the five text readers with random spelling), the method (40 % INVITE) and, for 25 % of the steps, a follow-up script of 1..3 events (wait 300/600/1100/2100 ms; 180 / 200 / 302 / 404 / 486 / 603 delivered over the carrying transport, a configured or foreign datagram transport or any open connection, datagram responses from the destination's port or port + 1). Non-trivial additionally: a request with later transmissions whose target is sips, whose transport was pinned, or whose non-2xx final arrived over another transport than the request left on. Distinct by hash of the case.",
         assumptions: vec![
-            "IP-literal targets only (no DNS: the resolver has no name servers); no transport= URI parameter; mock streams stand in for TCP/TLS (no handshake)",
+            "IP-literal targets only (no DNS: the resolver has no name servers); no transport= / maddr= URI parameter; mock streams stand in for TCP/TLS (no handshake)",
+            "the URI scheme is case-insensitive (RFC 3261 19.1.1, RFC 3986 3.1): SIPS: / Sips: name a sips target; user part, password, IPv6 hex case and uri/header parameters other than transport/maddr do not influence destination or transport",
+            "retransmissions of a request and the ACK an INVITE client transaction builds for a 3xx-6xx are requests to the same URI: never-in-clear, destination/port, datagram family and reuse of a caller-pinned transport + destination are asserted for each of them; that they use the carrier of the first transmission when nothing was pinned is NOT asserted (the statement is silent, RFC 3261 17.1.1.3 is C07's neighbourhood)",
+            "a response is matched to its transaction by branch and method only, so it may reach the endpoint over any transport (other datagram socket of a multi-homed host, another connection, an attacker's clear-text packet); which transport delivered it must not influence where the ACK goes",
             "Transports.transports is a HashMap: with several eligible candidates membership in the admissible set is asserted, plus the stated preference 'live outgoing connection before a new one'; datagram-vs-connection and datagram-vs-factory preference is not asserted",
             "a connection is 'live' (reuse demanded) while the application holds a handle to it; an open but unreferenced connection may be reused or replaced; whether a connection is still open is read from the peer end (EOF), its 32 s lifetime is C15's subject",
             "sips target + target info pinned to an insecure transport: the statement's 'pinned is reused' and 'never in clear' collide; verbatim use and refusal are both accepted",
             "connect attempts towards a factory that is not eligible are not asserted as long as nothing is sent over the result",
         ],
-        explanation: "config is exhaustive over the stated product (29952 configurations, both tiers); sequence is sampled (thorough-weighted)",
+        explanation: "config (29952 configurations, both tiers), uri-text (23040 quick / 115200 thorough) and followup (20736 quick / 59136 thorough) are exhaustive over their stated products; sequence is sampled (thorough-weighted)",
         subs: vec![
             enum_sub("config", config_cases, check_config),
+            enum_sub("uri-text", text_cases, check_text),
+            enum_sub("followup", follow_cases, check_follow),
             prop_sub("sequence", seq_strategy, 5000, 60_000, check_seq),
         ],
     }
